@@ -75,6 +75,12 @@ def space(tier):
     quick = tier == "quick"
     cap = 30_000 if quick else 600_000
     units = []
+    import aws_durable_execution_sdk_python.concurrency.executor as _exm
+    line_names = ("par[w2,s2]", "par[w1s,s2]", "par[s2,cb]", "par[wfc,rt]", "map[3:s2,maxc2]", "par[w1s,w1s]", "par[s0,s0]")
+    for kind, p in programs(tier):
+        if p["name"] in line_names:
+            units.append(({"program": p, "cfg": {"env_kinds": [], "line_files": [_exm.__file__], "grace": 1.0}},
+                          {"thread": 1, "total": 1}, cap))
     for kind, p in programs(tier):
         base = {"env_kinds": ["deliver"], "spurious": True}
         if kind == "grid":
@@ -102,7 +108,7 @@ simcheck.install(globals(), "C07", [monitors.judge_c07], space,
                  "wait_for_callback} at top level; every 2-branch parallel over 14 branch bodies (waits, steps whose "
                  "functions run 0/2/5 virtual seconds, callback, invoke with/without timeout, wait_for_condition with "
                  "delay 1/0, retrying step with delay 2/0, wait_for_callback); 7 three-branch shapes; nesting 2; "
-                 "max_concurrency; zero branches/items; a 14-program grid in which a sibling parks 0.8..1.4 s after start while a 1 s "
+                 "max_concurrency; zero branches/items; one preemption at any line of concurrency/executor.py on 7 shapes; a 14-program grid in which a sibling parks 0.8..1.4 s after start while a 1 s "
                  "timed-suspended branch becomes due (with 0 and 300 ms API latency, one preemption); threads keep running for "
                  "1 virtual second after the wrapper returned so that work started after PENDING is seen; all delivery orders of timers/callbacks/invokes incl. one "
                  "spurious re-invocation; every single crash point; policies rtb/low/high; +1 scheduling/timer deviation")
